@@ -1,9 +1,9 @@
 (* C05 -- Reverse complement obeys IUPAC base pairing and is an involution.
    Only statements here; proofs are in proof/C05_Lemmas.v. *)
-From Coq Require Import List Bool NArith.
+From Coq Require Import List Bool NArith Arith.
 From Coq.Strings Require Import Byte.
 Import ListNotations.
-From SV Require Import Text G_codes C05_Model C05_Lemmas C05_More.
+From SV Require Import Text G_codes C05_Model C05_Lemmas C05_More C05_Hist.
 
 (* complement of a code denotes the Watson-Crick complements of its bases; gaps are fixed *)
 Theorem C05_complement_table_sound : forall c, In c alphabet ->
@@ -148,6 +148,73 @@ Example C05_witness_twice : inv_ok (bs "ACGU"%bs) = true /\ inv_ok (bs "UUU"%bs)
   Bstr (complement (bs "aXu-R"%bs)) = "aXu-Y"%bs /\ Bstr (complement (t2u (bs "AAA"%bs))) = "TTT"%bs /\
   Bstr (t2u (complement (bs "AAA"%bs))) = "UUU"%bs /\ Bstr (construct (bs "acgu-n"%bs)) = "ACGU-N"%bs.
 Proof. exact witness_twice. Qed.
+
+(* ---- round 7: objects, baskets, histories ---- *)
+(* "for seq in self: seq.f()": an object is operated on once per listing in the basket *)
+Theorem C05_basket_loop : forall f b h i, i < length h ->
+  cell (on_basket f b h) i = Nat.iter (count_occ Nat.eq_dec b i) f (cell h i).
+Proof. exact on_basket_spec. Qed.
+Print Assumptions C05_basket_loop.
+
+(* basket-level operation = per-sequence operation: objects listed once are operated on once, the others stay *)
+Theorem C05_basket_nodup : forall f b h i, NoDup b -> i < length h ->
+  cell (on_basket f b h) i = if existsb (Nat.eqb i) b then f (cell h i) else cell h i.
+Proof. exact on_basket_nodup. Qed.
+Print Assumptions C05_basket_nodup.
+
+Theorem C05_basket_is_map : forall f h, on_basket f (seq 0 (length h)) h = map f h.
+Proof. exact on_basket_map. Qed.
+Print Assumptions C05_basket_is_map.
+
+(* copy(): fresh object with the same residues; a later in-place method on the copy leaves every older object alone *)
+Theorem C05_copy_isolation : forall s p arg opc arg' f, p < length (bask s) ->
+  seq_fun opc arg' = Some f -> basket_fun opc = None -> opc <> 4%N -> opc <> 14%N -> opc <> 16%N ->
+  let i := nth p (bask s) 0 in
+  let s1 := step s (4%N, p, arg) in
+  let s2 := step s1 (opc, p, arg') in
+  (forall j, j < length (heap s) -> cell (heap s1) j = cell (heap s) j) /\
+  cell (heap s1) (length (heap s)) = cell (heap s) i /\
+  nth p (bask s1) 0 = length (heap s) /\
+  (forall j, j < length (heap s) -> cell (heap s2) j = cell (heap s) j) /\
+  cell (heap s2) (length (heap s)) = f (cell (heap s) i).
+Proof. exact copy_isolation. Qed.
+Print Assumptions C05_copy_isolation.
+
+(* any history of complement / reverse / rc (either update_fts value; on one sequence or on the basket) keeps the length and the
+   GC counts of every object and the basket's handles *)
+Theorem C05_history_invariants : forall ops s, forallb (fun o => residue_op (fst (fst o))) ops = true ->
+  map (@length byte) (heap (run_ops s ops)) = map (@length byte) (heap s) /\
+  map gc_counts (heap (run_ops s ops)) = map gc_counts (heap s) /\
+  bask (run_ops s ops) = bask s.
+Proof. exact residue_history_invariants. Qed.
+Print Assumptions C05_history_invariants.
+
+(* one sequence under any history of complement / reverse / rc: only the two parities matter (U-free data: any bytes);
+   with U the same holds after writing T for U *)
+Theorem C05_history_normal_form : forall ks s,
+  (has cU s = false -> run_kinds ks s = kind_fun (parity ks) s) /\
+  u2t (run_kinds ks s) = kind_fun (parity ks) (u2t s).
+Proof. exact (fun ks s => conj (history_normal_form ks s) (history_normal_form_rna ks s)). Qed.
+Print Assumptions C05_history_normal_form.
+
+(* ... and that is what the object machine does to the object at position p; the other objects are not touched *)
+Theorem C05_object_history : forall s p ops, forallb (res_on p) ops = true -> nth p (bask s) 0 < length (heap s) ->
+  cell (heap (run_ops s ops)) (nth p (bask s) 0) = run_kinds (kinds_of ops) (cell (heap s) (nth p (bask s) 0)) /\
+  bask (run_ops s ops) = bask s /\
+  (forall j, j <> nth p (bask s) 0 -> cell (heap (run_ops s ops)) j = cell (heap s) j).
+Proof. exact object_history. Qed.
+Print Assumptions C05_object_history.
+
+(* the harness compares every intermediate state; the last one is run_ops *)
+Theorem C05_trace_last : forall s ops, last (trace s ops) s = run_ops s ops /\ length (trace s ops) = length ops.
+Proof. exact trace_last. Qed.
+Print Assumptions C05_trace_last.
+
+Example C05_witness_hist :
+  Bstr (run_kinds [(true, true); (true, false); (false, true)] (bs "AACGR-"%bs)) = "AACGR-"%bs /\
+  map Bstr (on_basket rc [0; 1; 0] [bs "AAC"%bs; bs "GGU"%bs]) = ["AAC"%bs; "ACC"%bs] /\
+  map Bstr (heap (run_ops (init_st [(true, bs "aacg"%bs)]) [(4%N, 0, []); (2%N, 0, [])])) = ["AACG"%bs; "CGTT"%bs].
+Proof. exact witness_hist. Qed.
 
 (* non-vacuity: a string meeting the hypotheses, with ambiguity codes and gaps *)
 Example C05_witness : forallb in_alpha (bs "ACGTRYSWKMBDHVN.-"%bs) = true /\
